@@ -6,6 +6,7 @@ CONSTANTS
   Names = {"a", "b"}
   MaxCost = 3
   Directed = FALSE
+  Canonical = FALSE
   NestedOrFixed = FALSE
 INVARIANTS RT Census KnownRegion
 CHECK_DEADLOCK FALSE
